@@ -16,12 +16,18 @@ func runC09(c *Check) error {
 		bound("version.New: every byte string of length 0..%d", NV),
 		bound("nil version == 7.4: \"<?php \"/\"<?\" + every byte string of length 0..%d; class equivalence: the same prefixes + 0..%d bytes; both: heredoc/version-sensitive prefixes + 0..%d bytes; the second version is fully symbolic within its class", K, KR, KH))
 	c.Assumptions = append(c.Assumptions, stdAssumptions...)
-	c.ExploreNeed(&interp.Job{Entry: "H_C09_Validate", Tag: "validate", Params: map[string]interface{}{}}, "validated")
-	for _, src := range []string{"<?php 1;", "", "<?php <<<A\n  x\n  A;\n"} {
-		c.ExploreNeed(&interp.Job{Entry: "H_C09_Parse", Tag: "dispatch", Params: map[string]interface{}{"src": src}}, "accepted", "rejected")
+	var proof []*interp.Job
+	need := func(j *interp.Job, cov ...string) {
+		c.ExploreNeed(j, cov...)
+		proof = append(proof, j)
 	}
-	c.ExploreNeed(&interp.Job{Entry: "H_C09_Compare", Tag: "compare", Params: map[string]interface{}{}}, "compared")
-	c.ExploreNeed(&interp.Job{Entry: "H_C09_Trans", Tag: "compare", Params: map[string]interface{}{}}, "chain")
+	need(&interp.Job{Entry: "H_C09_Validate", Tag: "validate", Params: map[string]interface{}{}}, "validated")
+	for _, src := range []string{"<?php 1;", "", "<?php <<<A\n  x\n  A;\n"} {
+		need(&interp.Job{Entry: "H_C09_Parse", Tag: "dispatch", Params: map[string]interface{}{"src": src}}, "accepted", "rejected")
+	}
+	need(&interp.Job{Entry: "H_C09_Compare", Tag: "compare", Params: map[string]interface{}{}}, "compared")
+	need(&interp.Job{Entry: "H_C09_Trans", Tag: "compare", Params: map[string]interface{}{}}, "chain")
+	c.CrossSolvers(proof)
 	for n := 0; n <= NV; n++ {
 		cov := []string{"new-err"}
 		if n >= 3 {
